@@ -202,5 +202,172 @@ mod misc {
         if got != want { notes.push(format!("{head}: drops do not match: dropped {got:?}, expected exactly {want:?} once each")); }
         notes
     }
+
+    // ------------------------------------------------------------------------------------------
+    // growth by a producer (Colls.v: op_extend_clones, op_resize_with, op_resize, op_extend_iter,
+    // op_map, op_dedup_by_key): the k-th production / closure call may panic.  One `C` line per
+    // case for the extracted model; identities of produced elements are base+50+k for call k.
+    thread_local! { static PROD: RefCell<(usize, i64, u32)> = const { RefCell::new((0, -1, 0)) }; }
+    fn prod_reset(pa: i64, first_id: u32) { PROD.with(|p| *p.borrow_mut() = (0, pa, first_id)); }
+    fn prod_calls() -> usize { PROD.with(|p| p.borrow().0) }
+    /// the next production: counts the call, panics when it is the scripted one
+    fn produce() -> u32 {
+        let (k, pa, first) = PROD.with(|p| { let mut p = p.borrow_mut(); let c = *p; p.0 += 1; c });
+        if k as i64 == pa { panic!("scripted panic in a production") }
+        first + k as u32
+    }
+    #[derive(Debug, PartialEq)]
+    pub struct K(pub u32);
+    impl Drop for K { fn drop(&mut self) { MDROPS.with(|d| d.borrow_mut().push(self.0)); } }
+    impl Clone for K { fn clone(&self) -> K { K(produce()) } }
+    /// a wider type for the branch of `map` that cannot reuse the buffer
+    #[derive(Debug, PartialEq)]
+    pub struct Wide(pub u32, pub [u64; 2]);
+    impl Drop for Wide { fn drop(&mut self) { MDROPS.with(|d| d.borrow_mut().push(self.0)); } }
+    fn kids(s: &[K]) -> Vec<u32> { s.iter().map(|d| d.0).collect() }
+
+    pub fn producers_probe(r: &mut Rng) -> (Vec<String>, Option<String>) {
+        use std::panic::{AssertUnwindSafe, catch_unwind};
+        let mut notes: Vec<String> = vec![];
+        let list = |v: &[u32]| v.iter().map(|x| x.to_string()).collect::<Vec<_>>().join(",");
+        drops();
+        let n = r.range(0, 7) as usize;
+        let base = r.below(1000) as u32 * 100;
+        let input: Vec<u32> = (0..n as u32).map(|i| base + i).collect();
+        let m = r.range(0, 6) as usize;                       // productions asked for
+        let pa: i64 = if r.coin(1, 2) { r.below(m as u64 + 1) as i64 } else { -1 };
+        let first = base + 50;
+        let which = r.below(7);
+        let kind = r.below(3);                                // 0 BumpVec, 1 MutBumpVec, 2 FixedBumpVec
+        let kname = match kind { 1 => "mv", 2 => "fv", _ => "bv" };
+        let mut bump: Bump = Bump::new();
+        let line: String;
+        macro_rules! with_vec {
+            ($v:ident, $body:block) => {{
+                match kind {
+                    0 => { let mut $v: BumpVec<K, &Bump> = BumpVec::new_in(&bump); for i in &input { $v.push(K(*i)); } $body }
+                    1 => { let mut $v: MutBumpVec<K, &mut Bump> = MutBumpVec::new_in(&mut bump); for i in &input { $v.push(K(*i)); } $body }
+                    _ => { let mut $v: FixedBumpVec<K> = FixedBumpVec::with_capacity_in(2 * n + m + 4, &bump); for i in &input { $v.push(K(*i)); } $body }
+                }
+            }};
+        }
+        // after the operation: what the vector holds, what was dropped meanwhile; then forget the vector's elements
+        macro_rules! finish {
+            ($v:ident, $res:expr, $head:expr, $ex:expr) => {{
+                let uw = $res.is_err();
+                let fin = kids(&$v);
+                let dr = drops();
+                let calls = prod_calls();
+                unsafe { $v.set_len(0) };
+                format!("C {kname} {};in={};ans=;dp=;ex={};fin={};yl=;dr={};uw={};calls={calls}", $head, list(&input), list(&$ex), list(&fin), list(&dr), uw as u8)
+            }};
+        }
+        match which {
+            0 => {
+                // extend_from_slice_clone: the sources are foreign elements (never dropped here)
+                let src: Vec<K> = (0..m as u32).map(|i| K(base + 90 + i)).collect();
+                let ex: Vec<u32> = (0..m as u32).map(|k| first + k).collect();
+                line = with_vec!(v, {
+                    prod_reset(pa, first);
+                    let res = catch_unwind(AssertUnwindSafe(|| v.extend_from_slice_clone(&src)));
+                    finish!(v, res, format!("extend_clones {pa}"), ex)
+                });
+                core::mem::forget(src);
+            }
+            1 => {
+                // extend_from_within_clone(a..b)
+                let a = r.below(n as u64 + 1) as usize;
+                let b = a + r.below((n - a) as u64 + 1) as usize;
+                let cnt = b - a;
+                let pa: i64 = if pa >= 0 { pa.min(cnt as i64) } else { -1 };
+                let ex: Vec<u32> = (0..cnt as u32).map(|k| first + k).collect();
+                line = with_vec!(v, {
+                    prod_reset(pa, first);
+                    let res = catch_unwind(AssertUnwindSafe(|| v.extend_from_within_clone(a..b)));
+                    finish!(v, res, format!("extend_clones {pa}"), ex)
+                });
+            }
+            2 => {
+                let new_len = r.below((n + m) as u64 + 1) as usize;
+                let ex: Vec<u32> = (0..new_len.saturating_sub(n) as u32).map(|k| first + k).collect();
+                line = with_vec!(v, {
+                    prod_reset(pa, first);
+                    let res = catch_unwind(AssertUnwindSafe(|| v.resize_with(new_len, || K(produce()))));
+                    finish!(v, res, format!("resize_with {new_len} {pa}"), ex)
+                });
+            }
+            3 => {
+                let new_len = r.below((n + m) as u64 + 1) as usize;
+                let vid = base + 40;
+                let ex: Vec<u32> = (0..new_len.saturating_sub(n + 1) as u32).map(|k| first + k).collect();
+                line = with_vec!(v, {
+                    let value = K(vid);
+                    prod_reset(pa, first);
+                    let res = catch_unwind(AssertUnwindSafe(|| v.resize(new_len, value)));
+                    finish!(v, res, format!("resize {new_len} {pa} {vid}"), ex)
+                });
+            }
+            4 => {
+                // extend from an iterator whose `next` may panic; honest or absent size hint
+                let ex: Vec<u32> = (0..m as u32).map(|k| first + k).collect();
+                let honest = r.coin(1, 2);
+                struct It { left: usize, honest: bool }
+                impl Iterator for It {
+                    type Item = K;
+                    fn next(&mut self) -> Option<K> { if self.left == 0 { return None; } let id = produce(); self.left -= 1; Some(K(id)) }
+                    fn size_hint(&self) -> (usize, Option<usize>) { if self.honest { (self.left, Some(self.left)) } else { (0, None) } }
+                }
+                line = with_vec!(v, {
+                    prod_reset(pa, first);
+                    let res = catch_unwind(AssertUnwindSafe(|| v.extend(It { left: m, honest })));
+                    finish!(v, res, format!("extend_iter {pa}"), ex)
+                });
+            }
+            5 => {
+                // map (BumpVec only), into a type of the same size (in place) or a wider one (new buffer)
+                let wide = r.coin(1, 2);
+                let pa: i64 = if pa >= 0 { pa.min(n as i64) } else { -1 };
+                let mut v: BumpVec<K, &Bump> = BumpVec::new_in(&bump);
+                for i in &input { v.push(K(*i)); }
+                prod_reset(pa, 0);
+                let res = catch_unwind(AssertUnwindSafe(|| {
+                    if wide {
+                        let mut w = v.map(|k| { let id = k.0; let _ = produce(); core::mem::forget(k); Wide(id, [1, 2]) });
+                        let f: Vec<u32> = w.iter().map(|x| x.0).collect();
+                        if w.iter().any(|x| x.1 != [1, 2]) { notes.push("producers: contents differ from std::vec::Vec: map wrote a damaged element".into()); }
+                        unsafe { w.set_len(0) };
+                        f
+                    } else {
+                        let mut w = v.map(|k| { let id = k.0; let _ = produce(); core::mem::forget(k); K(id) });
+                        let f = kids(&w);
+                        unsafe { w.set_len(0) };
+                        f
+                    }
+                }));
+                let dr = drops();
+                let calls = prod_calls();
+                let (fin, uw) = match res { Ok(f) => (f, 0), Err(_) => (vec![], 1) };
+                line = format!("C bv map {pa};in={};ans=;dp=;ex=;fin={};yl=;dr={};uw={uw};calls={calls}", list(&input), list(&fin), list(&dr));
+            }
+            _ => {
+                // dedup_by_key with scripted keys: call k returns ans[k] ('0'..'2') or panics ('P')
+                let mut ans: Vec<u8> = (0..2 * n + 2).map(|_| b'0' + r.below(3) as u8).collect();
+                if r.coin(1, 3) { let k = r.below(ans.len() as u64) as usize; ans[k] = b'P'; }
+                let ans_s = String::from_utf8(ans.clone()).unwrap();
+                let mut kc = 0usize;
+                line = with_vec!(v, {
+                    let res = catch_unwind(AssertUnwindSafe(|| v.dedup_by_key(|_e| { let c = ans.get(kc).copied().unwrap_or(b'0'); kc += 1; if c == b'P' { panic!("scripted panic in key") } c })));
+                    let uw = res.is_err();
+                    let fin = kids(&v);
+                    let dr = drops();
+                    unsafe { v.set_len(0) };
+                    format!("C {kname} dedup_by_key;in={};ans={ans_s};dp=;ex=;fin={};yl=;dr={};uw={};calls={}", list(&input), list(&fin), list(&dr), uw as u8, (kc + 1) / 2)
+                });
+            }
+        }
+        drop(bump);
+        if !drops().is_empty() { notes.push("producers: drops do not match: something was dropped after the vector had been emptied".into()); }
+        (notes, Some(line))
+    }
 }
-use misc::misc_probe;
+use misc::{misc_probe, producers_probe};
